@@ -8,3 +8,5 @@ def run(ck, fb, fbd):
     readers.order_rule(ck, fb)
     readers.stream_rules(ck, fb)
     readers.enum_string_rules(ck, fb)
+    readers.ovmb_framing_rules(ck, fb)
+    readers.handle_property_rule(ck, fb)
